@@ -32,7 +32,9 @@ EXPLANATION = (
     "their printers by value; (R7) PRINT writes a string as it is, and a number of each of the four types "
     "through the framing routine with the flag `payload >= 0` (evaluated on a negative, zero and positive "
     "payload); the frame with the flag starts with one blank, both frames end with one blank and format the "
-    "number with plain Display.")
+    "number with plain Display; (R8) where the lowering evaluates a user expression between the device selection "
+    "and PrintEnd, the VM keeps the statement's print state per activation (a FUNCTION called by an item may "
+    "itself PRINT).")
 NOT_DECIDED = [
     "the digits a number is rendered as (Display of f32 / f64 versus QBasic's rendering)",
     "PRINT USING: field scanning, cyclic reuse of the format, rounding (value-level string arithmetic)",
@@ -1016,6 +1018,79 @@ def _is_zero(op):
     return k.get("s") in ("0f32", "0f64", "-0f32", "-0f64")
 
 
+# ------------------------------------------------------------------ R8
+
+def r8_state_survives_user_code(ctx, rule="C16.R8"):
+    """The device, file handle, format string and format cursor of the PRINT being executed live in the VM's
+    PrintState from PrintSetPrinterType to PrintEnd.  Where the lowering evaluates a user expression in between
+    (an item may call a FUNCTION, and a FUNCTION may PRINT), the state has to be kept per activation - held in a
+    stack or in the call context - or the nested PRINT re-initialises it and the rest of the outer statement goes
+    to the screen."""
+    prog = ctx.prog
+    gens = {f.id: f for f in prog.fns.values()
+            if f.crate == "rusty_basic" and "instruction_generator" in f.path and f.kind != "const"
+            and not common.is_derived(f)}
+
+    def closure(f, depth=3, seen=None):
+        seen = seen if seen is not None else set()
+        if f.id in seen:
+            return seen
+        seen.add(f.id)
+        if depth > 0:
+            for _b, t in f.body.calls():
+                g = _resolve(prog, t)
+                if g is not None and g.id in gens:
+                    closure(g, depth - 1, seen)
+        return seen
+
+    def sets_device(f):
+        return any(s["k"] == "assign" and s["r"]["k"] == "agg" and (s["r"].get("adt") or "").endswith("::PrinterType")
+                   for blk in f.body.blocks for s in blk["s"])
+
+    def takes_expression(f):
+        return any(re.search(r"\bExpression(Pos)?\b|Positioned<.*Expression", l["ty"]) for l in f.body.locals[1:1 + f.argc])
+
+    ends = [(g, b) for g in gens.values() for b, blk in enumerate(g.body.blocks) for s in blk["s"]
+            if s["k"] == "assign" and s["r"]["k"] == "agg" and (s["r"].get("adt") or "").endswith("::Instruction")
+            and s["r"]["variant"] == "PrintEnd"]
+    if not ends:
+        raise CheckError("%s: no generator function emits PrintEnd" % rule)
+    g, end_b = ends[0]
+    body = g.body
+    setters, evals = [], []
+    for b, t in body.calls():
+        h = _resolve(prog, t)
+        if h is None or h.id not in gens:
+            continue
+        cl = [gens[x] for x in closure(h)]
+        if any(sets_device(x) for x in cl):
+            setters.append(b)
+        if any(takes_expression(x) for x in cl):
+            evals.append((b, h.name))
+    if not setters:
+        raise CheckError("%s: %s does not select the device before PrintEnd" % (rule, g.name))
+    live = sorted({n for b, n in evals if any(b in body.reachable(sb) and b != sb for sb in setters)
+                   and end_b in body.reachable(b)})
+    interp = prog.adt("rusty_basic::interpreter::main::Interpreter")
+    holders = [(x["name"], x["ty"]) for x in interp["variants"][0]["fields"] if "PrintState" in x["ty"]]
+    per_activation = [n for n, t in holders if re.search(r"\bVec<|VecDeque<|Stack", t)]
+    ctxs = [a for a in prog.adts.values() if a["path"].startswith("rusty_basic::interpreter::context")
+            and any("PrintState" in x["ty"] for v in a["variants"] for x in v["fields"])]
+    ctx.analysed_units(rule, lowering=g.path.split("::", 1)[1], user_code_between_device_and_end=live,
+                       state_holders=["%s: %s" % h for h in holders])
+    if not live:
+        ctx.ok(rule, rule + ":print-state-survives-nested-PRINT", g.loc, "no user expression is evaluated between the "
+               "device selection and PrintEnd")
+    else:
+        ctx.decide(bool(per_activation or ctxs), rule, rule + ":print-state-survives-nested-PRINT", g.loc,
+                   "the state is kept per activation (%s)" % (per_activation or [a["path"] for a in ctxs]),
+                   "%s evaluates user expressions (%s) after the device of the statement has been selected and before "
+                   "PrintEnd, and the VM keeps the statement's state in one place (%s): an item that calls a FUNCTION which "
+                   "PRINTs re-initialises it, so the rest of `PRINT #1, \"a\"; F$(1); \"b\"` goes to the screen and the "
+                   "file never gets its line end" % (g.name, ", ".join(live), ", ".join("%s: %s" % h for h in holders) or "no field"))
+    ctx.require(rule, 1)
+
+
 def run(ctx):
     common.install(ctx)
     devices = r1_device_dispatch(ctx)
@@ -1025,3 +1100,4 @@ def run(ctx):
     cols = r5_column(ctx)
     r6_per_device(ctx, cols, devices)
     r7_number_frame(ctx)
+    r8_state_survives_user_code(ctx)
